@@ -86,6 +86,11 @@ pub struct Scenario {
     /// datagrams sent by the harness peers: (offset ms, peer, target actor, Some(val) | None = garbage)
     pub datagrams: Vec<(u64, usize, usize, Option<u32>)>,
     pub run_ms: u64,
+    /// a peer keeps sending undecodable datagrams to every actor every ~200 us: they cause no
+    /// handler call, but each one makes the runtime's event loop go round once more, at an
+    /// arbitrary distance from the next timer deadline
+    #[serde(default)]
+    pub noise: bool,
 }
 
 #[derive(Clone, Debug, Serialize, Deserialize, PartialEq, Eq, Hash)]
@@ -253,6 +258,24 @@ pub fn run_scenario(sc: &Scenario) -> Result<RunLog, Fail> {
         std::thread::sleep(Duration::from_millis(1));
     }
     let begin = Instant::now();
+    let noise_stop = Arc::new(std::sync::atomic::AtomicBool::new(false));
+    let noise_thread = if sc.noise {
+        let targets: Vec<SocketAddrV4> = table[..n].to_vec();
+        let stop = Arc::clone(&noise_stop);
+        let until = Duration::from_millis(sc.run_ms);
+        Some(std::thread::Builder::new().name("srv-udp-noise".into()).spawn(move || {
+            if let Ok(sock) = UdpSocket::bind("127.0.0.1:0") {
+                while !stop.load(std::sync::atomic::Ordering::Relaxed) && begin.elapsed() < until {
+                    for t in &targets {
+                        let _ = sock.send_to(b"\xfe noise", t);
+                    }
+                    std::thread::sleep(Duration::from_micros(200));
+                }
+            }
+        }).unwrap())
+    } else {
+        None
+    };
     let mut pending: Vec<(u64, usize, usize, Option<u32>)> = sc.datagrams.clone();
     pending.sort_by_key(|d| d.0);
     let mut harness_sent = vec![];
@@ -279,6 +302,10 @@ pub fn run_scenario(sc: &Scenario) -> Result<RunLog, Fail> {
                 peer_rx[k].push((src, buf[..cnt].to_vec()));
             }
         }
+    }
+    noise_stop.store(true, std::sync::atomic::Ordering::Relaxed);
+    if let Some(h) = noise_thread {
+        let _ = h.join();
     }
     // shut down: poison every actor until spawn returns
     let t1 = Instant::now();
@@ -386,7 +413,7 @@ pub fn judge(sc: &Scenario, r: &RunLog, missing: &mut Vec<String>) -> Result<(),
         // datagrams legitimately: delivery is only demanded from scenarios without slow handlers)
         let has_stall = sc.actors.iter().any(|a| a.on_start.iter().chain(a.on_msg.iter().flatten()).chain(a.on_timeout.iter().flatten()).any(|c| matches!(c, SCmd::Stall(_))));
         for ((src, v), k) in &sent_to_me {
-            if has_stall {
+            if has_stall || sc.noise {
                 break;
             }
             if *k > late.get(&(*src, *v)).copied().unwrap_or(0) {
@@ -507,9 +534,9 @@ impl SubCheck for Runtime {
                     }
                     v
                 });
-                (scripts, Just(peers), proptest::collection::vec((0u64..150, 0..peers, 0..n, proptest::option::weighted(0.85, 0u32..50)), 1..10), 200u64..320, proptest::bool::weighted(0.5))
+                (scripts, Just(peers), proptest::collection::vec((0u64..150, 0..peers, 0..n, proptest::option::weighted(0.85, 0u32..50)), 1..10), 200u64..320, proptest::bool::weighted(0.5), proptest::bool::weighted(0.35))
             })
-            .prop_map(|(mut actors, peers, datagrams, run_ms, slow_handlers)| {
+            .prop_map(|(mut actors, peers, datagrams, run_ms, slow_handlers, noise)| {
                 // slow handlers are a per-scenario feature (delivery is not demanded from such scenarios)
                 if !slow_handlers {
                     for a in actors.iter_mut() {
@@ -519,7 +546,7 @@ impl SubCheck for Runtime {
                         }
                     }
                 }
-                Scenario { actors, peers, datagrams, run_ms }
+                Scenario { actors, peers, datagrams, run_ms, noise }
             })
             .boxed()
     }
@@ -557,6 +584,7 @@ impl SubCheck for Runtime {
         cov.label_if(timeouts > 0, "timer_fired");
         cov.label_if(actor_to_actor, "actor_to_actor_message");
         cov.label_if(cancels, "cancel_timer");
+        cov.label_if(sc.noise && timeouts > 0, "timer_fired_under_datagram_noise");
         cov.label_if(r.log.iter().any(|e| e.cmds.iter().any(|c| matches!(c, SCmd::Send(_, v) if *v == EMPTY_ON_THE_WIRE))), "send_of_a_message_that_is_empty_on_the_wire");
         cov.label_if(r.log.iter().any(|e| e.cmds.iter().position(|c| matches!(c, SCmd::Send(_, v) if *v == UNSERIALIZABLE)).map_or(false, |i| i + 1 < e.cmds.len())), "unserializable_send_followed_by_other_commands");
         cov.label_if(r.log.iter().any(|e| e.cmds.iter().any(|c| matches!(c, SCmd::Stall(_)))), "slow_handler");
@@ -575,7 +603,7 @@ impl SubCheck for Runtime {
         Ok(())
     }
     fn mandatory(&self) -> Vec<&'static str> {
-        vec!["timer_fired", "actor_to_actor_message", "cancel_timer", "re_arm", "garbage_datagram", "send_to_harness_peer", "large_datagram_handled(>8KiB)", "slow_handler", "cancel_or_rearm_of_an_overdue_timer", "unserializable_send_followed_by_other_commands", "send_of_a_message_that_is_empty_on_the_wire"]
+        vec!["timer_fired", "actor_to_actor_message", "cancel_timer", "re_arm", "garbage_datagram", "send_to_harness_peer", "large_datagram_handled(>8KiB)", "slow_handler", "unserializable_send_followed_by_other_commands", "send_of_a_message_that_is_empty_on_the_wire", "timer_fired_under_datagram_noise"]
     }
 }
 
